@@ -408,9 +408,9 @@ def scoping_contracts(placements):
             if c != cname:
                 continue
             if where == "contract":
-                natspec = NATSPEC_LAYOUTS[(len(placements) + ANN_VALUE[p]) % len(NATSPEC_LAYOUTS)].format(v=ANN_VALUE[p])
+                natspec = NATSPEC_LAYOUTS[(len(placements) + ANN_VALUE[p]) % len(NATSPEC_LAYOUTS)].replace("--loop {v}", "--loop {v} --solver-max-memory {v}").format(v=ANN_VALUE[p])
             else:
-                devdoc[where] = f"--loop {ANN_VALUE[p]}"
+                devdoc[where] = f"--loop {ANN_VALUE[p]} --solver-max-memory {ANN_VALUE[p]}"
         cs.append(e2e.Contract(cname, funcs, natspec=natspec, devdoc=devdoc, filename=f"{cname}.t.sol"))
     return cs
 
@@ -418,6 +418,8 @@ def scoping_contracts(placements):
 class Recorder:
     def __init__(self):
         self.seen = []
+        self.setup_solver = {}
+        self.last_solver_memory = None
 
     def install(self):
         import halmos.__main__ as hm
@@ -434,17 +436,25 @@ class Recorder:
 
         def setup(ctx):
             hm._verif_rec.seen.append((ctx.contract_ctx.name, ctx.info.sig, ctx.args.value_with_source("loop")))
+            # the solver run_contract has just built for the setup phase (mk_solver reads --solver-timeout-branching / --solver-max-memory)
+            hm._verif_rec.setup_solver[ctx.contract_ctx.name] = hm._verif_rec.last_solver_memory
             return orig_setup(ctx)
 
-        hm.run_test, hm.setup = run_test, setup
+        orig_mk_solver = hm.mk_solver
+
+        def mk_solver(args, *a, **kw):
+            hm._verif_rec.last_solver_memory = args.solver_max_memory
+            return orig_mk_solver(args, *a, **kw)
+
+        hm.run_test, hm.setup, hm.mk_solver = run_test, setup, mk_solver
 
 
 def scoping_case(acc, placements, toml_set, cli_set):
     rec = Recorder()
     rec.install()
     cs = scoping_contracts(placements)
-    argv = ["--loop", "21"] if cli_set else []
-    toml = "[global]\nloop = 5\n" if toml_set else None
+    argv = ["--loop", "21", "--solver-max-memory", "21"] if cli_set else []
+    toml = "[global]\nloop = 5\nsolver-max-memory = 5\n" if toml_set else None
     res, out, logs, exc = e2e.run_main(cs, argv=argv, toml=toml)
     acc.count("scoping_runs")
     case = {"kind": "scoping", "placements": list(placements), "toml": toml_set, "cli": cli_set}
@@ -479,6 +489,14 @@ def scoping_case(acc, placements, toml_set, cli_set):
                               f"the winning layer has rank {max(layers)[0]} (1 default, 2 config file, 3 contract annotation, 4 function annotation, 5 command line)", case)
                 return
             acc.outcome(("scoping", want))
+            if f == "setUp()":
+                # the setup phase really runs with the solver options of setUp()'s own configuration
+                mem = rec.setup_solver.get(cname)
+                want_mem = want if max(layers)[0] > 1 else None
+                if mem is not None and want_mem is not None and mem != want_mem:
+                    acc.violation(f"scoping-solver:{name}:{cname}", f"annotation placements {placements}, toml={toml_set}, cli={cli_set}: the solver of {cname}.setUp() was built with --solver-max-memory {mem}; "
+                                  f"setUp()'s configuration says {want_mem}", case)
+                    return
     acc.state(("scoping", name))
 
 
